@@ -25,8 +25,8 @@ from regmachine import Machine
 import zoo
 
 PROPERTY = "C04"
-LEAN_MODULE = "PyOak.Props.C05"
-THEOREMS = ["PyOak.C05.dfs_top_down"]
+LEAN_MODULE = "PyOak.Props.C04"
+THEOREMS = ["PyOak.C04." + t for t in ['deser_reuse', 'deser_reuse_all', 'deserKids_reuse', 'deser_fresh_ids', 'deser_root_created', 'Realizes.registered', 'deser_shared', 'deser_shared_later', 'deser_persist', 'deser_never_overwrites_live']]
 RULE = ("zoo trees (all property kinds incl. unicode strings, 64-bit ints, floats, enums, paths, literals, tuples, "
         "optionals; every origin kind incl. XML, generated, multi-origins over several sources, No* singletons; shared "
         "subtrees; ids with collision suffixes because registered twins exist outside the tree) x 4 formats x "
